@@ -51,9 +51,10 @@ Proof.
   - destruct (tref_eqb b a) eqn:E2; auto. apply tref_eqb_eq in E2. subst. rewrite tref_eqb_refl in E. discriminate.
 Qed.
 
-Global Opaque vis.
 
 Section L.
+Variable cf : cfg.
+Notation vis := (cvis cf).
 Variables A B : tref.
 Notation hit := (hit A).
 Notation sw_tbl := (sw_tbl A B).
@@ -62,18 +63,18 @@ Notation subst := (subst A B).
 Notation subst_l := (subst_l A B).
 Notation subst_w := (subst_w A B).
 Notation subst_o := (subst_o A B).
-Notation rep := (rep A B).
-Notation rep_l := (rep_l A B).
-Notation rep_w := (rep_w A B).
-Notation rep_o := (rep_o A B).
+Notation rep := (rep cf A B).
+Notation rep_l := (rep_l cf A B).
+Notation rep_w := (rep_w cf A B).
+Notation rep_o := (rep_o cf A B).
 Notation occ := (occ A).
 Notation occ_l := (occ_l A).
 Notation occ_w := (occ_w A).
 Notation occ_o := (occ_o A).
-Notation covered := (covered A).
-Notation covered_l := (covered_l A).
-Notation covered_w := (covered_w A).
-Notation covered_o := (covered_o A).
+Notation covered := (covered cf A).
+Notation covered_l := (covered_l cf A).
+Notation covered_w := (covered_w cf A).
+Notation covered_o := (covered_o cf A).
 
 Lemma sw_otbl_id o : occ_otbl A o = false -> sw_otbl o = o.
 Proof. destruct o as [t|]; simpl; auto. unfold Replace.sw_tbl. intros ->. reflexivity. Qed.
@@ -88,7 +89,7 @@ Lemma occ_subst_id_all :
   (forall t, occ t = false -> subst t = t) /\ (forall l, occ_l l = false -> subst_l l = l)
   /\ (forall l, occ_w l = false -> subst_w l = l) /\ (forall o, occ_o o = false -> subst_o o = o).
 Proof.
-  apply term_all_ind15; intros; autorewrite with rt15 in *;
+  apply term_all_ind15; intros; rw15;
     cbn [Replace.subst Replace.subst_l Replace.subst_w Replace.subst_o] in *;
     cbn [Replace.occ Replace.occ_l Replace.occ_w Replace.occ_o] in *; auto;
     try (match goal with Hx : _ = false |- _ => orb_split Hx end);
@@ -111,7 +112,7 @@ Lemma occ_rep_id_all :
   (forall t, occ t = false -> rep t = t) /\ (forall l, occ_l l = false -> rep_l l = l)
   /\ (forall l, occ_w l = false -> rep_w l = l) /\ (forall o, occ_o o = false -> rep_o o = o).
 Proof.
-  apply term_all_ind15; intros; autorewrite with rt15 in *;
+  apply term_all_ind15; intros; rw15;
     cbn [Replace.rep Replace.rep_l Replace.rep_w Replace.rep_o] in *;
     cbn [Replace.occ Replace.occ_l Replace.occ_w Replace.occ_o] in *; auto;
     try (match goal with Hx : _ = false |- _ => orb_split Hx end);
@@ -150,7 +151,7 @@ Theorem covered_rep_subst_all :
   (forall t, covered t = true -> rep t = subst t) /\ (forall l, covered_l l = true -> rep_l l = subst_l l)
   /\ (forall l, covered_w l = true -> rep_w l = subst_w l) /\ (forall o, covered_o o = true -> rep_o o = subst_o o).
 Proof.
-  apply term_all_ind15; intros; autorewrite with rt15 in *;
+  apply term_all_ind15; intros; rw15;
     cbn [Replace.rep Replace.rep_l Replace.rep_w Replace.rep_o Replace.subst Replace.subst_l Replace.subst_w Replace.subst_o];
     try match goal with Hc : _ = true |- _ =>
       cbn [Replace.covered Replace.covered_l Replace.covered_w Replace.covered_o] in Hc; andb_split Hc end;
@@ -189,6 +190,7 @@ End L.
 (* other tables are untouched; A disappears                                                    *)
 (* ------------------------------------------------------------------------------------------ *)
 Section CNT.
+Variable cf : cfg.
 Variables A B C : tref.
 Hypothesis CA : tref_eqb C A = false.
 
@@ -208,7 +210,7 @@ Theorem count_subst_all :
   /\ (forall l, count_w C (subst_w A B l) = count_w C l + (if tref_eqb C B then count_w A l else 0))
   /\ (forall o, count_o C (subst_o A B o) = count_o C o + (if tref_eqb C B then count_o A o else 0)).
 Proof.
-  apply term_all_ind15; intros; autorewrite with rt15; cbn [subst subst_l subst_w subst_o count count_l count_w count_o];
+  apply term_all_ind15; intros; rw15; cbn [subst subst_l subst_w subst_o count count_l count_w count_o];
     repeat match goal with H : _ = _ + _ |- _ => rewrite H; clear H end;
     try rewrite cnt_sw; destruct (tref_eqb C B); lia.
 Qed.
@@ -219,12 +221,12 @@ Lemma cnt_sw_other o : cnt_otbl C (sw_otbl A B o) = cnt_otbl C o.
 Proof. rewrite cnt_sw, CB. lia. Qed.
 
 Theorem count_rep_all :
-  (forall t, count C (rep A B t) = count C t) /\ (forall l, count_l C (rep_l A B l) = count_l C l)
-  /\ (forall l, count_w C (rep_w A B l) = count_w C l) /\ (forall o, count_o C (rep_o A B o) = count_o C o).
+  (forall t, count C (rep cf A B t) = count C t) /\ (forall l, count_l C (rep_l cf A B l) = count_l C l)
+  /\ (forall l, count_w C (rep_w cf A B l) = count_w C l) /\ (forall o, count_o C (rep_o cf A B o) = count_o C o).
 Proof.
-  apply term_all_ind15; intros; autorewrite with rt15; cbn [rep rep_l rep_w rep_o count count_l count_w count_o];
+  apply term_all_ind15; intros; rw15; cbn [rep rep_l rep_w rep_o count count_l count_w count_o];
     repeat match goal with |- context [if ?b then _ else _] => destruct b end;
-    autorewrite with rt15; cbn [count count_l count_w count_o];
+    rw15; cbn [count count_l count_w count_o];
     repeat match goal with H : _ = _ |- _ => rewrite H; clear H end;
     try rewrite cnt_sw_other; lia.
 Qed.
@@ -236,7 +238,7 @@ Theorem count_A_subst_all A B : tref_eqb B A = false ->
   /\ (forall l, count_w A (subst_w A B l) = 0) /\ (forall o, count_o A (subst_o A B o) = 0).
 Proof.
   intro BA.
-  apply term_all_ind15; intros; autorewrite with rt15; cbn [subst subst_l subst_w subst_o count count_l count_w count_o];
+  apply term_all_ind15; intros; rw15; cbn [subst subst_l subst_w subst_o count count_l count_w count_o];
     repeat match goal with H : _ = 0 |- _ => rewrite H; clear H end; auto.
   - destruct tbl as [t|]; simpl; auto. unfold sw_tbl, hit. destruct (tref_eqb t A) eqn:E; [rewrite BA | rewrite E]; reflexivity.
   - destruct tbl as [t|]; simpl; auto. unfold sw_tbl, hit. destruct (tref_eqb t A) eqn:E; [rewrite BA | rewrite E]; reflexivity.
@@ -249,7 +251,7 @@ Lemma count_occ_all A :
   /\ (forall l, sub_foreign_w A l = true -> (occ_w A l = false <-> count_w A l = 0))
   /\ (forall o, sub_foreign_o A o = true -> (occ_o A o = false <-> count_o A o = 0)).
 Proof.
-  apply term_all_ind15; intros; autorewrite with rt15 in *;
+  apply term_all_ind15; intros; rw15;
     cbn [occ occ_l occ_w occ_o count count_l count_w count_o sub_foreign sub_foreign_l sub_foreign_w sub_foreign_o] in *;
     try tauto;
     repeat match goal with
@@ -271,6 +273,7 @@ Qed.
 (* specification (for B other than A)                                                          *)
 (* ------------------------------------------------------------------------------------------ *)
 Section EXACT.
+Variable cf : cfg.
 Variables A B : tref.
 Hypothesis BA : tref_eqb B A = false.
 
@@ -294,16 +297,16 @@ Proof.
 Qed.
 
 Lemma slot_conv (v : bool) x :
-  sub_foreign A x = true -> (rep A B x = subst A B x -> covered A x = true) ->
-  (if v then rep A B x else x) = subst A B x -> cov1 v (covered A x) (occ A x) = true.
+  sub_foreign A x = true -> (rep cf A B x = subst A B x -> covered cf A x = true) ->
+  (if v then rep cf A B x else x) = subst A B x -> cov1 v (covered cf A x) (occ A x) = true.
 Proof. destruct v; simpl; intros F IH E; auto. apply negb_true_iff. apply subst_fix_no_occ; auto. Qed.
 Lemma slot_conv_l (v : bool) x :
-  sub_foreign_l A x = true -> (rep_l A B x = subst_l A B x -> covered_l A x = true) ->
-  (if v then rep_l A B x else x) = subst_l A B x -> cov1 v (covered_l A x) (occ_l A x) = true.
+  sub_foreign_l A x = true -> (rep_l cf A B x = subst_l A B x -> covered_l cf A x = true) ->
+  (if v then rep_l cf A B x else x) = subst_l A B x -> cov1 v (covered_l cf A x) (occ_l A x) = true.
 Proof. destruct v; simpl; intros F IH E; auto. apply negb_true_iff. apply subst_fix_no_occ_l; auto. Qed.
 Lemma slot_conv_o (v : bool) x :
-  sub_foreign_o A x = true -> (rep_o A B x = subst_o A B x -> covered_o A x = true) ->
-  (if v then rep_o A B x else x) = subst_o A B x -> cov1 v (covered_o A x) (occ_o A x) = true.
+  sub_foreign_o A x = true -> (rep_o cf A B x = subst_o A B x -> covered_o cf A x = true) ->
+  (if v then rep_o cf A B x else x) = subst_o A B x -> cov1 v (covered_o cf A x) (occ_o A x) = true.
 Proof. destruct v; simpl; intros F IH E; auto. apply negb_true_iff. apply subst_fix_no_occ_o; auto. Qed.
 Lemma slot_conv_tbl (v : bool) o :
   (if v then sw_otbl A B o else o) = sw_otbl A B o -> cov1 v true (occ_otbl A o) = true.
@@ -315,12 +318,12 @@ Ltac andb_split' H :=
          end.
 
 Theorem rep_subst_covered_all :
-  (forall t, sub_foreign A t = true -> rep A B t = subst A B t -> covered A t = true)
-  /\ (forall l, sub_foreign_l A l = true -> rep_l A B l = subst_l A B l -> covered_l A l = true)
-  /\ (forall l, sub_foreign_w A l = true -> rep_w A B l = subst_w A B l -> covered_w A l = true)
-  /\ (forall o, sub_foreign_o A o = true -> rep_o A B o = subst_o A B o -> covered_o A o = true).
+  (forall t, sub_foreign A t = true -> rep cf A B t = subst A B t -> covered cf A t = true)
+  /\ (forall l, sub_foreign_l A l = true -> rep_l cf A B l = subst_l A B l -> covered_l cf A l = true)
+  /\ (forall l, sub_foreign_w A l = true -> rep_w cf A B l = subst_w A B l -> covered_w cf A l = true)
+  /\ (forall o, sub_foreign_o A o = true -> rep_o cf A B o = subst_o A B o -> covered_o cf A o = true).
 Proof.
-  apply term_all_ind15; intros; autorewrite with rt15 in *;
+  apply term_all_ind15; intros; rw15;
     cbn [rep rep_l rep_w rep_o subst subst_l subst_w subst_o sub_foreign sub_foreign_l sub_foreign_w sub_foreign_o
          covered covered_l covered_w covered_o] in *; auto;
     repeat match goal with Hs : (_ && _)%bool = true |- _ => andb_split' Hs end;
@@ -334,8 +337,38 @@ Proof.
 Qed.
 
 (* covered is exactly the set of terms on which the code's traversal meets the specification *)
-Theorem covered_iff t : sub_foreign A t = true -> (covered A t = true <-> rep A B t = subst A B t).
+Theorem covered_iff t : sub_foreign A t = true -> (covered cf A t = true <-> rep cf A B t = subst A B t).
 Proof.
   intro F. split; [apply covered_rep_subst | apply (proj1 rep_subst_covered_all); exact F].
 Qed.
 End EXACT.
+
+(* ------------------------------------------------------------------------------------------ *)
+(* when every slot of the expression classes is visited, every term is in the fragment         *)
+(* ------------------------------------------------------------------------------------------ *)
+Section ALLVIS.
+Variable cf : cfg.
+Variable A : tref.
+Hypothesis AV : term_slots_all_visited cf = true.
+
+Ltac andb_split'' H :=
+  repeat match type of H with
+         | (_ && _)%bool = true => apply andb_true_iff in H; let H1 := fresh H in destruct H as [H H1]; try andb_split'' H1
+         end.
+
+Theorem all_visited_covered_all :
+  (forall t, sub_foreign A t = true -> covered cf A t = true)
+  /\ (forall l, sub_foreign_l A l = true -> covered_l cf A l = true)
+  /\ (forall l, sub_foreign_w A l = true -> covered_w cf A l = true)
+  /\ (forall o, sub_foreign_o A o = true -> covered_o cf A o = true).
+Proof.
+  pose proof AV as H0. unfold term_slots_all_visited in H0. cbn [forallb term_pairs fst snd] in H0. andb_split'' H0.
+  apply term_all_ind15; intros; rw15;
+    cbn [covered covered_l covered_w covered_o sub_foreign sub_foreign_l sub_foreign_w sub_foreign_o] in *; auto;
+    repeat match goal with Hs : (_ && _)%bool = true |- _ => andb_split'' Hs end;
+    repeat match goal with IH : ?P = true -> _, F : ?P = true |- _ => specialize (IH F) end;
+    repeat match goal with Hv : cvis cf ?k ?s = true |- context [cvis cf ?k ?s] => rewrite Hv end;
+    cbn [cov1];
+    repeat match goal with IH : _ = true |- _ => rewrite IH; clear IH end; reflexivity.
+Qed.
+End ALLVIS.
